@@ -164,6 +164,7 @@ type faultTransport struct {
 	failSend        int
 	failRecv        int
 	frames          [][]byte // frames of the messages handed to the inner send, in order
+	onSend          map[int]func() // called inside the idx-th send, before the message goes out
 	sendErrs        int      // inner sends that returned an error
 	sendOKAfterFail bool
 }
@@ -191,6 +192,9 @@ func (t *faultTransport) NewMessage(ctx context.Context) (rpccp.Message, func() 
 		t.mu.Unlock()
 		if j == t.failSend {
 			return errInjected
+		}
+		if h := t.onSend[j]; h != nil {
+			h()
 		}
 		if fr, err := msg.Struct.Message().Marshal(); err == nil {
 			t.mu.Lock()
